@@ -224,8 +224,8 @@ def check_local(out, rec):
 
 
 SUBS = [
-    Sub("relations", relation_case, check_relation, quick=4000, thorough=80000),
-    Sub("locality", local_case, check_local, quick=3500, thorough=70000),
+    Sub("relations", relation_case, check_relation, quick=6000, thorough=80000),
+    Sub("locality", local_case, check_local, quick=6000, thorough=70000),
 ]
 REQUIRED_CLASSES = ["relations:two_distinct_flags", "locality:perturbation_changes_flag"] + \
     [f"relations:offset:{t}" for t in OFFSET] + [f"relations:tshift:{t}" for t in TSHIFT] + [f"locality:local:{t}" for t in LOCAL]
